@@ -337,12 +337,25 @@ fn case_commands_with(t: &mut Tape, st: &mut Stats, max_lines: usize) -> Verdict
             2 => {
                 // a finite for loop: it iterates over an array of its own that no generated line can name,
                 // so the body cannot grow it (a body pushing to the iterated array is a user-written endless loop)
-                script.push_str("hloop = array 1 2 3\nfor item in ${hloop}\n");
-                for _ in 0..1 + t.below(2) {
+                script.push_str("hloop = array 1 2 3 4\nfor item in ${hloop}\n");
+                // the body may make the iterated array SHORTER (or drop it): the loop then just ends earlier
+                let shrink_at = if t.chance(1, 3) { Some(t.below(3)) } else { None };
+                let body = 1 + t.below(2);
+                for i in 0..body {
+                    if shrink_at == Some(i) {
+                        script.push_str(*t.pick_ref(&["    x = array_pop ${hloop}\n", "    x = array_remove ${hloop} 0\n", "    x = array_clear ${hloop}\n", "    x = release ${hloop}\n", "    hloop = array\n", "    hloop = array z\n"]));
+                        st.class("loop-body-shrinks-the-iterated-array");
+                    }
                     let l = gen_line(t, &names, &mut outs, st, &[], true);
                     script.push_str("    ");
                     script.push_str(&l);
                     script.push('\n');
+                }
+                if let Some(i) = shrink_at {
+                    if i >= body {
+                        script.push_str("    x = array_pop ${hloop}\n");
+                        st.class("loop-body-shrinks-the-iterated-array");
+                    }
                 }
                 script.push_str("end\n");
                 st.class("finite-for-loop");
@@ -488,7 +501,7 @@ fn case_cycle(t: &mut Tape, st: &mut Stats) -> Verdict {
 pub fn property() -> Property {
     Property {
         id: "C07",
-        rule: "(commands) 1..25 (thorough ..80) lines after a preamble that creates an array, maps, a set, a byte array, a released handle and variables; each line invokes ANY registered name of the SDK (all aliases and canonical names, minus the removed families) with an argument list drawn from a TYPED pool derived from the usage line of its help text (handles of the right/wrong kind, released, unknown; numbers incl. negative, huge, decimal, non-numeric, non-ASCII digits; multi-byte and syntax-bearing text; variable names; relative non-existing paths; documented flags) or from an UNTYPED pool (any value anywhere), with outputs chained into later arguments, exit_on_error toggles, finite for loops, user aliases of SDK commands and user functions with SDK-only bodies; (text) token soup of real command names, syntax characters and hazard strings; (include-cycle) files forming an include cycle of length 1..4 with relative/absolute/.. paths, parsed in a child process. Oracle: the run returns Ok or Err - a panic (caught, with location) is a violation; every shard runs in a child process, so an abort or stack overflow is attributed to the case that was running; fuel or nesting-limit exhaustion in (commands) is the 'does not finish' verdict because no generated line is a loop construct, alias of an alias, or recursive function; in (text) it is only counted. Non-trivial: every (commands) case; distinct by script text",
+        rule: "(commands) 1..25 (thorough ..80) lines after a preamble that creates an array, maps, a set, a byte array, a released handle and variables; each line invokes ANY registered name of the SDK (all aliases and canonical names, minus the removed families) with an argument list drawn from a TYPED pool derived from the usage line of its help text (handles of the right/wrong kind, released, unknown; numbers incl. negative, huge, decimal, non-numeric, non-ASCII digits; multi-byte and syntax-bearing text; variable names; relative non-existing paths; documented flags) or from an UNTYPED pool (any value anywhere), with outputs chained into later arguments, exit_on_error toggles, finite for loops (whose body may shorten, clear, release or re-point the iterated array), user aliases of SDK commands and user functions with SDK-only bodies; (text) token soup of real command names, syntax characters and hazard strings; (include-cycle) files forming an include cycle of length 1..4 with relative/absolute/.. paths, parsed in a child process. Oracle: the run returns Ok or Err - a panic (caught, with location) is a violation; every shard runs in a child process, so an abort or stack overflow is attributed to the case that was running; fuel or nesting-limit exhaustion in (commands) is the 'does not finish' verdict because no generated line is a loop construct, alias of an alias, or recursive function; in (text) it is only counted. Non-trivial: every (commands) case; distinct by script text",
         assumptions: &[
             "removed from the context before anything runs (stated exclusions + safety of the root-run checker): exec, spawn, exit/quit/q, watchdog, sleep, read, network commands, hostname, cd, set_env/unset_env, test_directory/test_file, every command that creates, modifies, deletes, lists or reads files (writefile, appendfile, cp, mv, rm, mkdir, touch, chmod, zip, glob_array, ls, cat, readfile, digest ...), which, man, and the internal:: family (its documentation generator writes a file to any path it is given)",
             "resource-proportional requests are bounded: range / random_text / random_range only receive literal numbers of magnitude <= 255, never a value computed by an earlier line, and are not spelled in the text soup",
@@ -502,7 +515,7 @@ pub fn property() -> Property {
                     Tier::Thorough => Plan::Random { cases: 6_000_000, max_len: 500 },
                 },
                 case: case_commands,
-                min_classes: &[("typed-argument-list", 500_000), ("untyped-argument-list", 200_000), ("user-alias", 5000), ("user-function", 5000), ("finite-for-loop", 5000), ("recursive-operation-on-cyclic-structure", 2000)],
+                min_classes: &[("typed-argument-list", 500_000), ("untyped-argument-list", 200_000), ("user-alias", 5000), ("user-function", 5000), ("finite-for-loop", 5000), ("loop-body-shrinks-the-iterated-array", 1500), ("recursive-operation-on-cyclic-structure", 2000)],
             },
             Section {
                 name: "commands-large",
